@@ -769,11 +769,15 @@ fn main() {
                             // (types, named result, ensures); the closure body stays verbatim
                             let n: usize = s.args.get(0).and_then(|x| x.parse().ok()).unwrap_or_else(|| die(4, format!("bad closure ordinal in {}", id)));
                             let cl = scan.closures.get(n).unwrap_or_else(|| die(3, format!("lost-anchor: closure {} of {} not found ({} closures)", n, id, scan.closures.len())));
-                            let hdr = s.text.trim_end().to_string();
+                            // first line: the annotated header; further lines (optional): bindings that re-create the
+                            // names of destructuring parameter patterns (`|acc, (&d, &w)|` -> `|acc: A, p: (&A, &A)|` + `let d = *p.0; let w = *p.1;`)
+                            let full = s.text.trim_end().to_string();
+                            let (hdr, prefix) = match full.find('\n') { Some(i) => (full[..i].to_string(), full[i + 1..].to_string()), None => (full.clone(), String::new()) };
                             if cl.3 {
+                                if !prefix.trim().is_empty() { die(4, format!("closure {} of {}: binding prefix needs an expression-bodied closure", n, id)); }
                                 edits.push((cl.0, cl.1, seq, format!("{} ", hdr), json!({"kind": "closure", "label": format!("closure {}", n), "fn": id, "tags": stags})));
                             } else {
-                                edits.push((cl.0, cl.1, seq, format!("{} {{ ", hdr), json!({"kind": "closure", "label": format!("closure {}", n), "fn": id, "tags": stags})));
+                                edits.push((cl.0, cl.1, seq, format!("{} {{ {} ", hdr, prefix.trim()), json!({"kind": "closure", "label": format!("closure {}", n), "fn": id, "tags": stags})));
                                 seq += 1;
                                 edits.push((cl.2, cl.2, seq, " }".to_string(), json!({"kind": "rewrite", "rule": "R9", "fn": id, "tags": body_tags})));
                             }
